@@ -4,7 +4,11 @@ CONSTANTS
   Ext = {0, 1, 2, 3}
   Ext3 = {0, 1, 2}
   MaxRank = 3
-  RootSmall = FALSE
+  RootSet = "all"
+  Layouts = {"C", "F", "col", "rev"}
+  LayCtors = {"ctor_a", "mul_unit"}
+  MixQuick = FALSE
+  MixRich = FALSE
   IntSet <- IntsB
   SliceSet = {"from1", "step2", "rev"}
   FancySet = {"f00", "fe"}
